@@ -84,6 +84,7 @@ class Scheduler:
         self.task_errors = []  # (thread name, fn name, repr(exc), traceback)
         self.stop_when = None
         self.cap_hit = False
+        self.digest_fn = None  # optional: abstract state at every decision point (stateful exploration)
         self.debug = [] if __import__("os").environ.get("VERIF_DEBUG_POINTS") else None
         self.last_run = {}  # tid -> step index at which it last ran
         self.sig = []  # schedule signature: sequence of (tid) at task boundaries (for distinct-schedule counting)
@@ -160,7 +161,7 @@ class Scheduler:
                 if c >= len(en):
                     raise ReplayDivergence(f"replay divergence at decision point {k}: choice {c} but only {len(en)} enabled")
                 self.choices.append(c)
-                self.points.append((len(en), c, tuple(t.tid for t in en)))
+                self.points.append((len(en), c, tuple(t.tid for t in en), self.digest_fn(en) if self.digest_fn is not None else None))
                 if self.debug is not None:
                     self.debug.append([(t.name, _short(t.pending)) for t in en])
                 th = en[c]
